@@ -18,7 +18,7 @@ CONFIG = dict(
              "model), base64 decoder and scrypt.Key parameter checks validated separately, real wallets of each type locked, "
              "serialised, searched for every original secret, reloaded and unlocked; after every Unlock (successful or not) and after "
              "any use of the unlocked copy or of a Clone the locked wallet is re-serialised and must be unchanged and secret-free "
-             "(aliasing checks between a wallet and its Clone for all four wallet types).",
+             "(aliasing checks between a wallet and its Clone for all four wallet types); wallets extended WHILE LOCKED on both bip44 chains (and through GuardUpdate) must unlock to the never-locked twin of the same seed with every entry's secret key matching its public key.",
         note="Assumed: cipher correctness / authenticity as explicit hypotheses (CipherOK, WrongKeyRejected); json.Unmarshal, the "
              "scrypt core, chacha20poly1305 core, SHA-256 and Secp256k1Hash do not panic (they are total parameters); ciphertexts "
              "shorter than 2^38 bytes. Memory exhaustion (OOM kill) for 2^26 < 128*N*r <= 2^48 is a runtime effect outside the model.",
